@@ -58,7 +58,7 @@ func c12Origins(attr string) []string {
 	case "secret.file", "config.file", "volume.driver_opts.device":
 		return []string{"main", "override", "included", "included-deep", "included-projdir"}
 	}
-	return []string{"main", "override", "included", "included-deep", "included-projdir", "extended"}
+	return []string{"main", "override", "included", "included-deep", "included-projdir", "extended", "extended-same-file", "included-extends-sibling", "included-projdir-extends-sibling"}
 }
 
 // fragment returns the service-level and top-level fragments that carry the path.
@@ -244,6 +244,33 @@ func (cs c12Case) build(root string) c12Built {
 			b.base = filepath.Join(wd, "pd")
 			main["include"] = []any{kvm("path", "inc/compose.yaml", "project_directory", "pd")}
 			files = append(files, memFile{Name: filepath.Join(incDir, "compose.yaml"), Content: emitYAML(inc, nil)}, memFile{Name: filepath.Join(wd, "pd/.keep"), Content: ""})
+		}
+		files = append(files, memFile{Name: filepath.Join(wd, "compose.yaml"), Content: emitYAML(main, nil)})
+		b.lc = loadCase{Files: files, Main: []string{filepath.Join(wd, "compose.yaml")}, WorkDir: wd}
+	case "extended-same-file":
+		// the service inherits the path from a sibling of the same file: same anchor as if it had written it
+		b.base = wd
+		doc := mkdoc(kvm("extends", kvm("service", "tmpl")), top, false)
+		tmpl := map[string]any{"image": "busybox"}
+		mergeInto(tmpl, cloneTree(svc).(map[string]any))
+		doc["services"].(map[string]any)["tmpl"] = tmpl
+		b.lc = loadCase{Files: []memFile{{Name: filepath.Join(wd, "compose.yaml"), Content: emitYAML(doc, nil)}}, Main: []string{filepath.Join(wd, "compose.yaml")}, WorkDir: wd}
+	case "included-extends-sibling", "included-projdir-extends-sibling":
+		// the same inside an included file
+		incDir := filepath.Join(wd, "inc")
+		inc := mkdoc(kvm("extends", "tmpl"), top, false)
+		tmpl := map[string]any{"image": "busybox"}
+		mergeInto(tmpl, cloneTree(svc).(map[string]any))
+		inc["services"].(map[string]any)["tmpl"] = tmpl
+		main := map[string]any{"services": kvm("front", kvm("image", "busybox"))}
+		files := []memFile{{Name: filepath.Join(incDir, "compose.yaml"), Content: emitYAML(inc, nil)}}
+		if cs.Origin == "included-extends-sibling" {
+			b.base = incDir
+			main["include"] = []any{"inc/compose.yaml"}
+		} else {
+			b.base = filepath.Join(wd, "pd")
+			main["include"] = []any{kvm("path", "inc/compose.yaml", "project_directory", "pd")}
+			files = append(files, memFile{Name: filepath.Join(wd, "pd/.keep"), Content: ""})
 		}
 		files = append(files, memFile{Name: filepath.Join(wd, "compose.yaml"), Content: emitYAML(main, nil)})
 		b.lc = loadCase{Files: files, Main: []string{filepath.Join(wd, "compose.yaml")}, WorkDir: wd}
